@@ -27,6 +27,8 @@ def run(prog, rep, tier):
         apply(rep, "E9", "E* and E+ over converging bodies, alone, on two inputs and inside a capture (engine interpreted against the reference semantics)", e9, 1)
     else:
         apply(rep, "E9", "E* and E+ over converging bodies, alone, on two inputs and inside a capture (engine interpreted against the reference semantics)", ([i for i in e9[0] if i[0] in ('E9:closure',)], [f for f in e9[1] if f["key"] in ('E9:closure',)]), 1)
+    import r_front
+    apply(rep, "E11", "`E?`, `E*`, `E+` written in query text, stacked and over bodies with cycles, yield what `(E,)` and the closures yield (query text -> scanner simulation -> LALR automaton of parser.yy with every action interpreted -> tree::simplify -> build_exec -> op engine, all interpreted, against the documented meaning of the notation)", r_front.e11(prog, tier, ("E11:suffix",)), 1)
     if tier == "thorough" and not os.environ.get("VERIF_NO_MUTANTS"):
         import mutants
         mutants.run_mutants("C10", rep)
